@@ -740,6 +740,22 @@ pub(crate) fn hashfunc(mut data: &[u8]) -> (u32, u32, u32) {
     (g, f1, f2)
 }
 
+#[cfg(feature = "verif")]
+impl ElementType {
+    /// verification hook: every element definition of the specification, reachable or not
+    #[doc(hidden)]
+    pub fn verif_all() -> impl Iterator<Item = ElementType> {
+        (0..ELEMENTS.len()).map(|def| ElementType::new(def as u16))
+    }
+
+    /// verification hook: (number of element definitions, number of datatypes, datatype id of this element type)
+    #[doc(hidden)]
+    #[must_use]
+    pub fn verif_ids(&self) -> (usize, usize, u16) {
+        (ELEMENTS.len(), DATATYPES.len(), self.typ)
+    }
+}
+
 #[cfg(test)]
 mod test {
     extern crate std;
